@@ -83,6 +83,10 @@ func families(run *vk.Run) []*family {
 		// group), each forwarding a field argument bound to its own client variable
 		{"merge group, two variables", `query Q($n: Int, $m: Int) { me { greeting(times: $n) } user(id: "u3") { friends { greeting(times: $m) } } }`, `{"n":2,"m":7}`},
 		{"merge group, values swapped", `query Q($n: Int, $m: Int) { me { greeting(times: $n) } user(id: "u3") { friends { greeting(times: $m) } } }`, `{"n":7,"m":2}`},
+		// one merged entry forwarding two client variables: the earlier one not provided
+		// at all, the later one explicitly null (and the other way round)
+		{"merge group, undefined then null", `query Q($n: Int, $m: Style) { me { greeting(times: $n, style: $m) } user(id: "u3") { friends { greeting(times: $n, style: $m) } } }`, `{"m":null}`},
+		{"merge group, null then undefined", `query Q($n: Int, $m: Style) { me { greeting(times: $n, style: $m) } user(id: "u3") { friends { greeting(times: $n, style: $m) } } }`, `{"n":null}`},
 		{"merge group, three members", `query Q($n: Int, $m: Style, $k: Int) { me { greeting(times: $n) } user(id: "u3") { friends { greeting(style: $m) } } users { nick greeting(times: $k) } }`, `{"n":2,"m":"LOUD","k":5}`},
 	}
 	fa := &family{name: "S-abs", s: abs, u: fedlab.SAbsUniverse(abs), schema: mustSchema(abs.SDL())}
